@@ -795,6 +795,11 @@ _dispatch_source_invoke2(dispatch_source_t ds, dispatch_invoke_context_t dic,
 	}
 
 	if (_dispatch_unote_needs_delete(dr)) {
+		// A muxed unote shares its mux-note with the other sources of the
+		// descriptor, and that is state of the kevent queue: unregister there
+		if (dq != dkq) {
+			return dkq;
+		}
 		_dispatch_source_refs_unregister(ds, DUU_DELETE_ACK | DUU_MUST_SUCCEED);
 	}
 
@@ -948,9 +953,10 @@ _dispatch_source_wakeup(dispatch_source_t ds, dispatch_qos_t qos,
 		// The registration handler needs to be delivered to the target queue.
 		tq = DISPATCH_QUEUE_WAKEUP_TARGET;
 	} else if (_du_state_needs_delete(du_state)) {
-		// Deferred deletion can be acknowledged which can always be done
-		// from the target queue
-		tq = DISPATCH_QUEUE_WAKEUP_TARGET;
+		// Deferred deletion is acknowledged on the kevent queue (the target
+		// queue for direct unotes): a muxed unote may only be unregistered
+		// there
+		tq = dkq;
 	} else if (!(dqf & (DSF_CANCELED | DQF_RELEASED)) &&
 			os_atomic_load2o(dr, ds_pending_data, relaxed)) {
 		// The source has pending data to deliver to the target queue.
